@@ -4,13 +4,14 @@ import asyncio
 import contextlib
 import logging
 from collections.abc import MutableMapping, MutableSequence, MutableSet
+from functools import cmp_to_key
 from importlib.resources import files
 from typing import cast
 
 from streamflow.core.context import StreamFlowContext
 from streamflow.core.exception import FailureHandlingException
 from streamflow.core.recovery import FailureManager, RecoveryRequest, recoverable
-from streamflow.core.utils import get_tag
+from streamflow.core.utils import compare_tags, get_tag
 from streamflow.core.workflow import Job, Port, Status, Step, Token, Workflow
 from streamflow.log_handler import logger
 from streamflow.persistence.loading_context import WorkflowBuilder
@@ -66,7 +67,7 @@ async def _inject_tokens(
                     for token_id in mapper.port_tokens[port_name]
                     if mapper.token_availability[token_id]
                 ],
-                key=lambda x: x.tag,
+                key=cmp_to_key(lambda x, y: compare_tags(x.tag, y.tag)),
             )
             # Discard workflow output port
             if port_name in mapper.port_tokens.keys()
